@@ -83,6 +83,16 @@ def gen(tier, rng):
                         out.append(("SECEQ %s %s %s" % (ty, C.tb(b), C.tb(a)), "source-literal/length"))
                     out.append(("SECEQ %s %s %s" % (ty, C.tb(a + "x"), C.tb(a + "y")), "source-literal/length"))
                     out.append(("SECEQ %s %s %s" % (ty, C.tb("x" + a), C.tb("y" + a)), "source-literal/length"))
+    # values that differ only in characters beyond Latin-1 (same number of characters), and '?' / U+FFFD standing in for them:
+    # a comparison through a lossy transcoding would call them equal
+    high = ["пароль1", "секрет1", "日本語", "中文字", "ქართულ", "??????", "\ufffd\ufffd\ufffd", "???", "päss", "p?ss", "pass", "p\u00e4ss", "ｐａｓｓ", "😀😀", "😀😁", "??",
+            "a\u0100b", "a\u0101b", "a?b", "a\u00ffb", "a\u0100", "a\u0200", "\u0100", "\u0400", "?", "x\U0001F600y", "x\U0001F601y", "x?y", "x??y"]
+    for ti, ty in enumerate(TYPES):
+        for a in high:
+            for b in high:
+                if tier == "quick" and a != b and len(a) != len(b) and (ti + len(a) + len(b)) % 2:
+                    continue
+                out.append(("SECEQ %s %s %s" % (ty, C.tb(a), C.tb(b)), "beyond-latin1"))
     n = 500 if tier == "quick" else 50000
     for _ in range(n):
         a = "".join(rng.choice("abé\x00 ") for _ in range(rng.randint(0, 6)))
